@@ -40,7 +40,7 @@ CHECKS = {
     "C10": ("must-pass-through on the registry, recursion-guard dominance, exit discipline and chain-orientation rules",
             "Decides: with-scopes must be distinguishable and ranked last; registry hits are identity-validated; every "
             "recursive resolution carries a visited set or a strictly shorter chain; all exits are a binding or "
-            "ResolutionError; chain producers are outer-to-inner and the scan is reversed with the found index slice; inherit sources and with environments are looked up in the prescribed chain. Also: a value stored by item assignment loses its foreign chain; continuations run in the scan iteration that found the binder. Also: only formals enter the parameter scope; chains are recomputed from the owner on every access; the setter installs a copy. Also: stored let layers keep their order through every producer; the inherit cycle marker does not depend on the scope chain. Also: a resolved value receives the chain of its definition site on every path.", "2/C10"),
+            "ResolutionError; chain producers are outer-to-inner and the scan is reversed with the found index slice; inherit sources and with environments are looked up in the prescribed chain. Also: a value stored by item assignment loses its foreign chain; continuations run in the scan iteration that found the binder. Also: only formals enter the parameter scope; chains are recomputed from the owner on every access; the setter installs a copy. Also: stored let layers keep their order through every producer; the inherit cycle marker does not depend on the scope chain. Also: a resolved value receives the chain of its definition site on every path. Also: stored layers are handed to the layer helper in stored order; a formal's default is committed only after the lookup among the supplied attributes.", "2/C10"),
     "C11": ("same-resolver rule for getter/setter + assign-through dominance over overwrites (sibling agreement)",
             "Decides: Identifier.value getter and setter resolve through the same function and the setter writes only the "
             "resolved binding's value; every overwrite of a located binding's value is dominated, when that value is a "
@@ -56,7 +56,7 @@ CHECKS = {
     "C14": ("paired-update (post-dominance) rule for values/attrpath_order + sibling agreement on entry kinds + clean-raise rule",
             "Decides: every structural mutation of a binding container is followed on all paths by the mirror update of the "
             "matching order list; deletion sites handle both order-entry kinds; KeyError for a missing key is raised "
-            "before any write; key access only on known mappings (KeyError, not TypeError); updates mutate the located Binding in place. Also: the order accessor is total; binding containers reach the text on every path; a walk's result is used. Also: manual stacks are balanced; mirrors follow the binding list in every mutator; fallback handlers are reviewed. Also: by-name positions are positions in the scope list itself; attrpath merge tables as in C04.", "2/C14"),
+            "before any write; key access only on known mappings (KeyError, not TypeError); the attrpath splitter is called on a key only inside try/except ValueError in the read dunders (KeyError, not ValueError); updates mutate the located Binding in place. Also: the order accessor is total; binding containers reach the text on every path; a walk's result is used. Also: manual stacks are balanced; mirrors follow the binding list in every mutator; fallback handlers are reviewed. Also: by-name positions are positions in the scope list itself; attrpath merge tables as in C04.", "2/C14"),
     "C15": ("effect analysis of the rebuild closure (no shared document write) + process-wide state inventory (who-may-write)",
             "Decides: no function reachable from any rebuild writes document state of a shared object; module-level mutable "
             "state is written only by its confined writers (thread-local parser, context variables reset in finally, "
